@@ -162,6 +162,18 @@ def switch_programs():
             p2 = dict(parent)
             p2['define'] = [['local', 'q', py("rec('sd', 1)")]]
             yield p2, vars_, 'switch+define:%d' % i
+            # switch and repeat on one element: every repetition renders the matching case
+            p3 = dict(parent)
+            p3['repeat'] = ['x', py("rec('r', seq)")]
+            yield p3, vars_ + [['seq', 'lenN', 1]], 'switch+repeat:%d' % i
+            p4 = dict(parent)
+            p4['condition'] = py("rec('c', cv2)")
+            yield p4, vars_ + [['cv2', 'bool', 2]], 'switch+condition:%d' % i
+    # the switch value depends on the loop variable of the same element (implementation order only: the
+    # documented order would evaluate it before the loop variable exists)
+    kids = [child('a', "rec('k0', 0)"), child('b', "rec('k1', 1)"), child('c', "rec('kd', default)")]
+    yield ({'tag': 'p', 'indent': 2, 'repeat': ['x', py("rec('r', seq)")], 'switch': py("rec('s', x % 3)"),
+            'children': kids}, [['seq', 'lenN', 1]], 'switch-on-loop-variable')
 
 
 def restore_programs():
@@ -243,7 +255,7 @@ def plan(tier, seed):
                    'chameleon.utils:Scope'],
         bounds=('programs enumerated: %d templates = one statement-carrying element (every subset of '
                 'define/condition/repeat/content|replace/omit-tag/attributes whose binding space is <= %d '
-                'classes) in %s attribute order(s), 7x6 depth-2 nestings, 7 switch/case families, 4 programs probing that the hidden outer binding (unbound / None / value) of a defined or loop variable is back after the element; bindings '
+                'classes) in %s attribute order(s), 7x6 depth-2 nestings, 12 switch/case families (incl. switch together with repeat / condition on one element and a switch on the loop variable; documented and implemented relative order both admissible), 4 programs probing that the hidden outer binding (unbound / None / value) of a defined or loop variable is back after the element; bindings '
                 'decided by the solver per program: condition/omit flags bool, value class index over '
                 '[None, default, False, True, 0, 2, "", "a<"], sequence length 0..3 or None, define value int '
                 'in [0,4). Outside: depth > 2, case together with repeat/condition-false on one element '
